@@ -94,6 +94,20 @@ func VerifC03RealBig() {
 	verifapi.SetNow(now)
 	db.SetNode(store.Node{ID: client, LastSeen: now})
 	db.SetNode(store.Node{ID: host, IsHost: true, LastSeen: now})
+	// optionally a second host, which shares a wallet with the first one or is on trial
+	nh := verifapi.Param("hosts", 1)
+	host2 := store.NodeID(verifapi.NodeID(2))
+	peers := []store.Node{{ID: host, IsHost: true}}
+	shared := false
+	if nh == 2 {
+		db.SetNode(store.Node{ID: host2, IsHost: true, LastSeen: now})
+		peers = append(peers, store.Node{ID: host2, IsHost: true})
+		if shared = verifapi.Bool("hosts-share-wallet"); shared {
+			hw := store.Account(verifapi.Wallet(1))
+			db.AddAccountNode(hw, host)
+			db.AddAccountNode(hw, host2)
+		}
+	}
 	db.AddAccountNode(wal, client)
 	db.AddNodeBalance(client, big.NewInt(300))
 	db.AddNodeBalance(client, big.NewInt(200)) // 500, in a number with spare capacity (as every accumulated credit has)
@@ -110,9 +124,9 @@ func VerifC03RealBig() {
 		dt := []int64{10, 200, 400}[verifapi.Choose("dt", 3)]
 		now = now.Add(time.Duration(dt) * time.Second)
 		verifapi.SetNow(now)
-		_, err := mgr.OnUpdate(store.Node{ID: client, LastSeen: last}, []store.Node{{ID: host, IsHost: true}})
+		_, err := mgr.OnUpdate(store.Node{ID: client, LastSeen: last}, peers)
 		last = now
-		credit -= dt
+		credit -= dt * int64(nh)
 		if lbe, ok := err.(balance.LowBalanceError); ok {
 			verifapi.Assert(credit+deposit < min, "c03.real.update-at-or-above-min-never-cut-off")
 			verifapi.Assert(lbe.CurrentBalance.Int64() == credit+deposit, "c03.real.error-reports-actual-balance")
@@ -123,7 +137,15 @@ func VerifC03RealBig() {
 		stored, _ := db.GetAccountBalance(wal)
 		verifapi.Assert(stored.Credit.Int64() == credit, "c03.real.stored-credit-is-previous-minus-charge")
 		hb, _ := db.GetNodeBalance(host)
-		verifapi.Assert(hb.Credit.Int64() == 500-credit, "c03.real.host-credited-what-the-client-paid")
+		earned := 500 - credit
+		if nh == 2 && !shared {
+			earned /= 2 // each host has its own (trial) balance
+		}
+		verifapi.Assert(hb.Credit.Int64() == earned, "c03.real.host-credited-what-the-client-paid")
+		if nh == 2 {
+			hb2, _ := db.GetNodeBalance(host2)
+			verifapi.Assert(hb2.Credit.Int64() == earned, "c03.real.host-credited-what-the-client-paid")
+		}
 		// a (re)connect at this point is judged on the same balance
 		cerr := mgr.OnClient(store.Node{ID: client})
 		verifapi.Assert((cerr != nil) == (credit+deposit < min), "c03.real.connect-judged-on-actual-balance")
